@@ -37,10 +37,28 @@ def _z3_solve(smt, timeout_ms, want_model=True):
   return out
 
 
+def _beta_reduce(smt):
+  """z3 prints comprehension views as (lambda ...) terms, which cvc5 accepts only in higher-order logic: z3's simplifier
+  (equivalence preserving) beta-reduces every select over a lambda; the text is returned unchanged if one remains."""
+  import z3
+  s = z3.Solver()
+  s.from_string(smt)
+  g = z3.Goal()
+  for a in s.assertions():
+    g.add(a)
+  s2 = z3.Solver()
+  for a in z3.Tactic("simplify")(g, som=False)[0]:
+    s2.add(a)
+  out = s2.to_smt2()
+  return smt if "(lambda " in out else out
+
+
 def _cvc5_solve(smt, timeout_ms):
   t0 = time.time()
   try:
     import cvc5
+    if "(lambda " in smt:
+      smt = _beta_reduce(smt)
     slv = cvc5.Solver()
     slv.setOption("tlimit-per", str(timeout_ms))
     slv.setOption("nl-ext-tplanes", "true")
@@ -72,7 +90,22 @@ def _cvc5_solve(smt, timeout_ms):
 def _work(job):
   """Portfolio: z3 with a short budget, then cvc5, then z3 with the full budget (most obligations need < 1 s of z3;
   the non-linear ones that z3 finds hard are typically immediate for cvc5 and vice versa)."""
-  idx, smt, timeout_ms, both = job
+  idx, smt, timeout_ms, both = job[:4]
+  alt = job[4] if len(job) > 4 else None
+  if alt:
+    # the same goal from a subset of the hypotheses (small, stable query): a proof of it is a proof of the obligation
+    ra = _z3_solve(alt, min(3000, timeout_ms), want_model=False)      # short: when facts from before the loop are
+    t_alt = ra.get("time", 0.0)                                          # needed the subset query only wastes time
+    if ra["status"] == "unsat":
+      ra["idx"] = idx
+      ra["backend"] = ra.get("backend", "z3") + "(subset)"
+      if not both:
+        return ra
+      full = _work((idx, smt, timeout_ms, both))
+      if full["status"] == "sat":
+        full["disagreement"] = True      # impossible for a sound solver pair: subset unsat, superset sat
+        return full
+      return full if full["status"] == "unsat" else ra
   short = min(6000, timeout_ms)
   r = _z3_solve(smt, short)
   r["idx"] = idx
@@ -98,7 +131,8 @@ def _work(job):
 
 def solve_all(obligations, timeout_ms=30000, workers=None, both=False):
   """Returns one result dict per obligation, same order."""
-  jobs = [(i, ob.smt2(), timeout_ms, both) for i, ob in enumerate(obligations)]
+  jobs = [(i, ob.smt2(), timeout_ms, both, ob.smt2_alt() if hasattr(ob, "smt2_alt") else None)
+          for i, ob in enumerate(obligations)]
   if not jobs:
     return []
   workers = workers or min(16, os.cpu_count() or 4)
